@@ -404,8 +404,10 @@ class _VerletBase(_SweepBase):
         L = make_level(cls, M, mk, kind='particles', fill=False, quad=inst.get('quad', 'RADAU-RIGHT'),
                        do_coll_update=inst.get('coll_update'), problem_class=ParticleProblem)
         sw = L.sweep
-        sw.QT = mk.matrix('L.QT', M + 1, M + 1, lower)
-        sw.Qx = mk.matrix('L.Qx', M + 1, M + 1, lambda i, j: i >= 1 and 1 <= j < i)
+        # pySDC layout: column 0 belongs to the step start; for node sets without the left end point it is NOT zero (QT = (QI+QE)/2 carries
+        # the explicit matrix' first column), and the sweep must ignore it consistently
+        sw.QT = mk.matrix('L.QT', M + 1, M + 1, lambda i, j: i >= 1 and j <= i)
+        sw.Qx = mk.matrix('L.Qx', M + 1, M + 1, lambda i, j: i >= 1 and j < i)
         sw.QQ = mk.matrix('L.QQ', M + 1, M + 1, lambda i, j: i >= 1 and j >= 1)
         sw.qQ = mk.vector('L.qQ', M)
         for m in range(M + 1):
